@@ -1,1 +1,185 @@
-fn main() {}
+//! Lock engine (C20): contention histories on `essential_lock::StdLock`, checked offline.
+//! Depends only on essential-lock and std so that it also runs under Miri and TSan.
+//!
+//! Every closure appends its unique id to the guarded vector and returns
+//! `(id it saw last, own id, nonce)`. Call/return are stamped from one global counter outside
+//! the lock. The checker demands: no two closures inside one lock at once; the final vector is
+//! a permutation of all issued ids; every op's observed predecessor is the id right before it
+//! (a single total order, no lost or torn update); real-time order is respected; `apply`
+//! returns its own closure's value.
+
+use essential_lock::StdLock;
+use std::sync::{
+    atomic::{AtomicBool, AtomicU64, Ordering},
+    Arc,
+};
+
+struct Op {
+    lock: usize,
+    id: u64,
+    call: u64,
+    ret: u64,
+    pred: u64,
+    returned_id: u64,
+    returned_nonce: u64,
+    nonce: u64,
+}
+
+fn mix(mut x: u64) -> u64 {
+    x = x.wrapping_add(0x9E37_79B9_7F4A_7C15);
+    x = (x ^ (x >> 30)).wrapping_mul(0xBF58_476D_1CE4_E5B9);
+    x = (x ^ (x >> 27)).wrapping_mul(0x94D0_49BB_1331_11EB);
+    x ^ (x >> 31)
+}
+
+fn delay(kind: u64, miri: bool) {
+    match kind % 6 {
+        0 => std::thread::yield_now(),
+        1 if !miri => {
+            let t = std::time::Instant::now();
+            while t.elapsed().as_nanos() < (kind >> 8) as u128 % 20_000 {
+                std::hint::spin_loop();
+            }
+        }
+        2 if !miri => std::thread::sleep(std::time::Duration::from_micros((kind >> 8) % 50)),
+        _ => {}
+    }
+}
+
+struct Outcome {
+    ops: usize,
+    violations: Vec<String>,
+    switches: u64,
+    signature: u64,
+}
+
+fn history(seed: u64, threads: usize, nlocks: usize, ops_per_thread: usize, miri: bool) -> Outcome {
+    let locks: Arc<Vec<StdLock<Vec<u64>>>> = Arc::new((0..nlocks).map(|_| StdLock::new(Vec::new())).collect());
+    let inside: Arc<Vec<AtomicBool>> = Arc::new((0..nlocks).map(|_| AtomicBool::new(false)).collect());
+    let clock = Arc::new(AtomicU64::new(1));
+    let overlap = Arc::new(AtomicU64::new(0));
+    let mut handles = vec![];
+    for t in 0..threads {
+        let (locks, inside, clock, overlap) = (locks.clone(), inside.clone(), clock.clone(), overlap.clone());
+        handles.push(std::thread::spawn(move || {
+            let mut log = Vec::with_capacity(ops_per_thread);
+            for k in 0..ops_per_thread {
+                let h = mix(seed ^ ((t as u64) << 32) ^ k as u64);
+                let l = (h % nlocks as u64) as usize;
+                let id = ((t as u64 + 1) << 32) | (k as u64 + 1);
+                let nonce = h >> 7;
+                delay(h >> 3, miri);
+                let call = clock.fetch_add(1, Ordering::SeqCst);
+                let r = locks[l].apply(|v| {
+                    if inside[l].swap(true, Ordering::SeqCst) {
+                        overlap.fetch_add(1, Ordering::SeqCst);
+                    }
+                    let pred = v.last().copied().unwrap_or(0);
+                    delay(h >> 13, miri);
+                    v.push(id);
+                    inside[l].store(false, Ordering::SeqCst);
+                    (pred, id, nonce)
+                });
+                let ret = clock.fetch_add(1, Ordering::SeqCst);
+                log.push(Op { lock: l, id, call, ret, pred: r.0, returned_id: r.1, returned_nonce: r.2, nonce });
+            }
+            log
+        }));
+    }
+    let mut all: Vec<Op> = vec![];
+    for h in handles {
+        all.extend(h.join().expect("worker thread"));
+    }
+    let mut violations = vec![];
+    if overlap.load(Ordering::SeqCst) > 0 {
+        violations.push(format!("{} closures entered a lock while another was inside", overlap.load(Ordering::SeqCst)));
+    }
+    let mut switches = 0;
+    let mut signature = 0xcbf2_9ce4_8422_2325u64;
+    for l in 0..nlocks {
+        let fin: Vec<u64> = locks[l].apply(|v| v.clone());
+        let mine: Vec<&Op> = all.iter().filter(|o| o.lock == l).collect();
+        let mut issued: Vec<u64> = mine.iter().map(|o| o.id).collect();
+        issued.sort_unstable();
+        let mut got = fin.clone();
+        got.sort_unstable();
+        if issued != got {
+            violations.push(format!("lock {l}: final contents are not a permutation of the issued ids ({} issued, {} present): lost or duplicated update", issued.len(), got.len()));
+            continue;
+        }
+        let pos: std::collections::HashMap<u64, usize> = fin.iter().enumerate().map(|(i, id)| (*id, i)).collect();
+        for o in &mine {
+            let p = pos[&o.id];
+            let before = if p == 0 { 0 } else { fin[p - 1] };
+            if o.pred != before {
+                violations.push(format!("lock {l}: op {:#x} saw {:#x} as last element but {:#x} precedes it in the final order (update not serialised)", o.id, o.pred, before));
+            }
+            if o.returned_id != o.id || o.returned_nonce != o.nonce {
+                violations.push(format!("lock {l}: apply returned another closure's value for op {:#x}", o.id));
+            }
+        }
+        // real-time order: sort by position, track the maximal call stamp seen so far;
+        // an op that returned before some earlier-positioned op was even called is a violation.
+        let mut by_pos: Vec<&&Op> = mine.iter().collect();
+        by_pos.sort_by_key(|o| pos[&o.id]);
+        let mut max_call = 0u64;
+        for o in &by_pos {
+            if o.ret < max_call {
+                violations.push(format!("lock {l}: op {:#x} returned (stamp {}) before an op ordered before it was called (stamp {max_call})", o.id, o.ret));
+            }
+            max_call = max_call.max(o.call);
+        }
+        for w in fin.windows(2) {
+            if w[0] >> 32 != w[1] >> 32 {
+                switches += 1;
+            }
+        }
+        for id in &fin {
+            signature = mix(signature ^ (id >> 32) ^ ((l as u64) << 8));
+        }
+    }
+    violations.truncate(8);
+    Outcome { ops: all.len(), violations, switches, signature }
+}
+
+fn main() {
+    let argv: Vec<String> = std::env::args().collect();
+    let get = |name: &str, default: u64| -> u64 {
+        argv.iter().position(|a| a == name).and_then(|i| argv.get(i + 1)).and_then(|v| v.parse().ok()).unwrap_or(default)
+    };
+    let seed = get("--seed", 1);
+    let histories = get("--histories", 1);
+    let threads = get("--threads", 4) as usize;
+    let locks = get("--locks", 1) as usize;
+    let ops = get("--ops", 100) as usize;
+    let miri = cfg!(miri);
+    let vary = argv.iter().any(|a| a == "--vary");
+    let t0 = std::time::Instant::now();
+    let (mut total_ops, mut switches, mut nviol) = (0usize, 0u64, 0usize);
+    let mut sigs = std::collections::BTreeSet::new();
+    let mut first: Vec<String> = vec![];
+    for h in 0..histories {
+        let s = mix(seed.wrapping_mul(1_000_003).wrapping_add(h));
+        let (t, l, o) = if vary { (2 + (s % (threads as u64 - 1).max(1)) as usize, 1 + ((s >> 8) % locks as u64) as usize, ops) } else { (threads, locks, ops) };
+        let out = history(s, t, l, o, miri);
+        total_ops += out.ops;
+        switches += out.switches;
+        sigs.insert(out.signature);
+        nviol += out.violations.len();
+        if first.len() < 5 {
+            for v in out.violations {
+                first.push(format!("history {h} (seed {s}, {t} threads, {l} locks, {o} ops/thread): {v}"));
+            }
+        }
+    }
+    let esc = |s: &str| s.replace('\\', "\\\\").replace('"', "\\\"");
+    println!(
+        "LOCKREPORT {{\"histories\": {histories}, \"ops\": {total_ops}, \"thread_switches_in_final_orders\": {switches}, \"distinct_final_orders\": {}, \"violations\": {nviol}, \"first\": [{}], \"wall_s\": {:.2}}}",
+        sigs.len(),
+        first.iter().map(|v| format!("\"{}\"", esc(v))).collect::<Vec<_>>().join(", "),
+        t0.elapsed().as_secs_f64()
+    );
+    if nviol > 0 {
+        std::process::exit(1);
+    }
+}
